@@ -99,3 +99,858 @@ func narrowCounters(p *Prog, r *Reporter) {
 		}
 	}
 }
+
+// ---------- per-column effects are not skipped ----------
+
+// columnEffectsComplete: in a loop of an archetype method whose body zeroes or copies column storage (reflect SetZero,
+// the raw copy primitive, a zeroing method), every path through the body either performs the effect or is known to be
+// on a zero-sized column (`itemSize == 0`). A `continue` for any other reason leaves that column's old bytes in place.
+func columnEffectsComplete(p *Prog, r *Reporter) {
+	zero := p.zeroingFns()
+	raw := p.rawCopyPrimitives()
+	for _, fn := range p.Funcs {
+		root := fn
+		for root.Parent() != nil {
+			root = root.Parent()
+		}
+		if typeName(recvType(root)) != "archetype" {
+			continue
+		}
+		effect := func(i ssa.Instruction) bool {
+			c, ok := i.(ssa.CallInstruction)
+			if !ok {
+				return false
+			}
+			if isZeroingCall(c) {
+				return true
+			}
+			callees, _ := p.Callees(c)
+			for _, sc := range callees {
+				if zero[sc] || raw[sc] {
+					return true
+				}
+			}
+			return false
+		}
+		// loop headers whose body contains an effect
+		n := 0
+		for _, h := range fn.Blocks {
+			if !isLoopHeader(h) {
+				continue
+			}
+			var body []*ssa.BasicBlock
+			has := false
+			for _, x := range fn.Blocks {
+				if x != h && dominatesBlock(h, x) && reaches(x, h) {
+					body = append(body, x)
+					for _, ins := range x.Instrs {
+						if effect(ins) {
+							has = true
+						}
+					}
+				}
+			}
+			if !has {
+				continue
+			}
+			n++
+			// must-flow inside the loop: reset at the header
+			mf := &MustFlow{Fn: fn,
+				InstrGen: effect,
+				EdgeGen: func(b *ssa.BasicBlock, k int) bool {
+					atom, holds, ok := edgeCond(b, k)
+					if !ok {
+						return false
+					}
+					rel, c, ok := boundOnEdge(atom, holds, func(v ssa.Value) bool {
+						_, f, _, okf := loadedField(v)
+						return okf && f == "itemSize"
+					})
+					return ok && rel == "==" && c == 0
+				},
+				InstrKill: func(i ssa.Instruction) bool { return i.Block() == h && i == h.Instrs[0] },
+			}
+			mf.Run()
+			bad := ""
+			for _, x := range body {
+				for k, s := range x.Succs {
+					if s != h {
+						continue
+					}
+					// fact at the end of x (back edge)
+					st := mf.Before(x.Instrs[len(x.Instrs)-1])
+					if !st && !mf.EdgeGen(x, k) {
+						bad = p.Pos(posOf(x.Instrs[len(x.Instrs)-1]))
+					}
+				}
+			}
+			construct := fmt.Sprintf("per-column effect loop #%d", n)
+			if bad == "" {
+				r.OK(p.FuncName(fn), construct, p.Pos(posOf(h.Instrs[len(h.Instrs)-1])), "every iteration zeroes/copies its column, or the column is zero-sized")
+			} else {
+				r.Bad(p.FuncName(fn), construct, p.Pos(posOf(h.Instrs[len(h.Instrs)-1])), "an iteration can reach the next one (back edge at "+bad+") without zeroing/copying its column and without knowing that the column is zero-sized: that column keeps its old bytes")
+			}
+		}
+	}
+}
+
+// ---------- the pool is restored verbatim ----------
+
+func poolRestoredVerbatim(p *Prog, r *Reporter) {
+	load := p.Fn("ecs.(*World).LoadEntities")
+	if load == nil {
+		r.Anchor("ecs.(*World).LoadEntities")
+		return
+	}
+	want := map[string]string{"next": "Next", "available": "Available"}
+	seen := map[string]bool{}
+	for _, b := range load.Blocks {
+		for _, ins := range b.Instrs {
+			st, ok := ins.(*ssa.Store)
+			if !ok {
+				continue
+			}
+			o, f, _, okf := loadedField(st.Addr)
+			if !okf || o != "entityPool" {
+				continue
+			}
+			wf, tracked := want[f]
+			if !tracked {
+				continue
+			}
+			seen[f] = true
+			v := stripConvs(st.Val)
+			do, df, _, okd := loadedField(v)
+			okc := okd && do == "EntityDump" && df == wf
+			r.Check(okc, p.FuncName(load), "entityPool."+f+" restored from the dump", p.Pos(st.Pos()), "the pool's "+f+" is the dump's "+wf+" as recorded, not recomputed (found: "+exprString(st.Val)+")")
+		}
+	}
+	for f := range want {
+		if !seen[f] {
+			r.Bad(p.FuncName(load), "entityPool."+f+" restored from the dump", p.FnPos(load), "no store to entityPool."+f)
+		}
+	}
+}
+
+// ---------- Deactivate only through the retiring method ----------
+
+func deactivateOnlyOnRetire(p *Prog, r *Reporter) {
+	push, _ := p.retirePrimitives()
+	n := 0
+	for _, fn := range p.Funcs {
+		for _, site := range callsIn(fn) {
+			sc := site.Common().StaticCallee()
+			if sc == nil || cname(sc) != "Deactivate" || typeName(recvType(sc)) != "archetype" {
+				continue
+			}
+			n++
+			if push[fn] {
+				r.OK(p.FuncName(fn), "deactivates a table", p.Pos(site.Pos()), "inside the retiring method, together with the removal from the target map and the push to the free list")
+			} else {
+				r.Bad(p.FuncName(fn), "deactivates a table", p.Pos(site.Pos()), "a table is marked inactive outside the retiring method: it stays in the node's target map (and keeps receiving entities) while selectors skip it as inactive")
+			}
+		}
+	}
+	if n == 0 {
+		r.Anchor("a call of archetype.Deactivate")
+	}
+}
+
+// ---------- the relation-removal guard uses ContainsAny ----------
+
+func relationGuardCallee(p *Prog, r *Reporter) {
+	n := 0
+	for _, fn := range p.Funcs {
+		for _, site := range callsIn(fn) {
+			sc := site.Common().StaticCallee()
+			if sc == nil || typeName(recvType(sc)) != "Mask" || len(site.Common().Args) != 2 {
+				continue
+			}
+			if _, f, _, ok := loadedField(site.Common().Args[1]); !ok || f != "IsRelation" {
+				if fa, ok := site.Common().Args[1].(*ssa.FieldAddr); !ok || fieldName(fa.X.Type(), fa.Field) != "IsRelation" {
+					continue
+				}
+			}
+			n++
+			construct := fmt.Sprintf("mask test against IsRelation #%d", n)
+			if cname(sc) == "ContainsAny" {
+				r.OK(p.FuncName(fn), construct, p.Pos(site.Pos()), "ContainsAny: the table has some relation component")
+			} else {
+				r.Bad(p.FuncName(fn), construct, p.Pos(site.Pos()), "a table's mask is tested with "+cname(sc)+" against the set of all relation types; 'has a relation component' is ContainsAny (with "+cname(sc)+" the test fails as soon as two relation types are registered)")
+			}
+		}
+	}
+	if n == 0 {
+		r.Anchor("a Mask test against componentRegistry.IsRelation")
+	}
+}
+
+// ---------- a given target is forwarded ----------
+
+// variadicTargetForwarded: in a method with a variadic Entity parameter, code reachable from the `len(target) > 0`
+// edge never calls an internal creator with its has-target flag constant false.
+func variadicTargetForwarded(p *Prog, r *Reporter) {
+	for _, fn := range p.Funcs {
+		if !fn.Signature.Variadic() || len(fn.Params) == 0 {
+			continue
+		}
+		last := fn.Params[len(fn.Params)-1]
+		sl, ok := last.Type().Underlying().(*types.Slice)
+		if !ok || !isEntityType(sl.Elem()) {
+			continue
+		}
+		fact := "lenpos(" + last.Name() + ")"
+		n := 0
+		for _, b := range fn.Blocks {
+			iff, ok := b.Instrs[len(b.Instrs)-1].(*ssa.If)
+			if !ok {
+				continue
+			}
+			for k := 0; k < 2; k++ {
+				if !boolFacts(iff.Cond, k == 0, 0)[fact] {
+					continue
+				}
+				n++
+				// blocks reachable from this edge
+				seen := map[*ssa.BasicBlock]bool{}
+				work := []*ssa.BasicBlock{b.Succs[k]}
+				bad := ""
+				for len(work) > 0 {
+					x := work[len(work)-1]
+					work = work[:len(work)-1]
+					if seen[x] {
+						continue
+					}
+					seen[x] = true
+					for _, ins := range x.Instrs {
+						site, ok := ins.(ssa.CallInstruction)
+						if !ok {
+							continue
+						}
+						sc := site.Common().StaticCallee()
+						if sc == nil || !p.isArche(sc) || sc.Blocks == nil || len(site.Common().Args) != len(sc.Params) {
+							continue
+						}
+						for i := 0; i+1 < len(sc.Params); i++ {
+							if typeName(sc.Params[i].Type()) == "ID" {
+								if bt, ok := sc.Params[i+1].Type().Underlying().(*types.Basic); ok && bt.Kind() == types.Bool {
+									if cb, isC := constBool(site.Common().Args[i+1]); isC && !cb {
+										bad = p.Pos(site.Pos())
+									}
+								}
+							}
+						}
+					}
+					if p.info(fn).cutAt[x] >= 0 {
+						continue
+					}
+					work = append(work, x.Succs...)
+				}
+				construct := fmt.Sprintf("target given (%s) #%d", last.Name(), n)
+				if bad == "" {
+					r.OK(p.FuncName(fn), construct, p.Pos(iff.Pos()), "no creation without the target is reachable once a target was given")
+				} else {
+					r.Bad(p.FuncName(fn), construct, p.Pos(iff.Pos()), "with a target given, control can still reach the call at "+bad+" that creates without relation target: the target is silently ignored (and never validated)")
+				}
+			}
+		}
+	}
+}
+
+// ---------- the target flags cover the index ----------
+
+func targetFlagsCoverIndex(p *Prog, r *Reporter) {
+	n := 0
+	for _, fn := range p.Funcs {
+		for _, site := range callsIn(fn) {
+			sc := site.Common().StaticCallee()
+			if sc == nil || cname(sc) != "ExtendTo" || typeName(recvType(sc)) != "bitSet" {
+				continue
+			}
+			if _, f, _, ok := loadedField(site.Common().Args[0]); !ok || f != "targetEntities" {
+				if fa, ok := site.Common().Args[0].(*ssa.FieldAddr); !ok || fieldName(fa.X.Type(), fa.Field) != "targetEntities" {
+					continue
+				}
+			}
+			n++
+			x := stripConvs(site.Common().Args[1])
+			okc, why := false, "the new size is "+exprString(x)
+			// (a) the capacity of the index allocated in this function
+			for _, b := range fn.Blocks {
+				for _, ins := range b.Instrs {
+					if mk, ok := ins.(*ssa.MakeSlice); ok {
+						if sl, ok := mk.Type().Underlying().(*types.Slice); ok && typeName(sl.Elem()) == "entityIndex" {
+							if c := stripConvs(mk.Cap); c == x || structEq(c, x, 0) {
+								okc, why = true, "the capacity the index is allocated with"
+							}
+						}
+					}
+				}
+			}
+			// (b) a capacity helper's result
+			if c := callOf(x); c != nil && c.Common().StaticCallee() != nil && strings.HasPrefix(cname(c.Common().StaticCallee()), "capacity") {
+				okc, why = true, "the result of "+cname(c.Common().StaticCallee())
+			}
+			// (c) old length + a non-constant increment (the configured capacity increment)
+			if bo, ok := x.(*ssa.BinOp); ok && bo.Op == token.ADD {
+				isLen := func(v ssa.Value) bool {
+					c := callOf(stripConvs(v))
+					if c == nil {
+						return false
+					}
+					bi, ok := c.Call.Value.(*ssa.Builtin)
+					if !ok || bi.Name() != "len" {
+						return false
+					}
+					_, f, _, okf := loadedField(c.Call.Args[0])
+					return okf && f == "entities"
+				}
+				if isLen(bo.X) || isLen(bo.Y) {
+					okc, why = true, "the index length plus the capacity increment"
+				}
+			}
+			construct := fmt.Sprintf("target flags extended #%d", n)
+			if okc {
+				r.OK(p.FuncName(fn), construct, p.Pos(site.Pos()), "extended to "+why)
+			} else {
+				r.Bad(p.FuncName(fn), construct, p.Pos(site.Pos()), why+", which is not known to cover the ids the index is about to hold (the capacity of the index, a capacity helper's result, or old length + increment): the newest id may have no flag word")
+			}
+		}
+	}
+	if n == 0 {
+		r.Anchor("a call of World.targetEntities.ExtendTo")
+	}
+}
+
+// ---------- moving cache entries ----------
+
+func cacheEntryMoves(p *Prog, r *Reporter) {
+	n := 0
+	for _, fn := range p.Funcs {
+		if typeName(recvType(fn)) != "Cache" {
+			continue
+		}
+		isFilters := func(v ssa.Value) bool {
+			if sl, ok := v.(*ssa.Slice); ok {
+				v = sl.X
+			}
+			_, f, _, ok := loadedField(v)
+			return ok && f == "filters"
+		}
+		// bulk moves inside the entry list
+		for _, site := range callsIn(fn) {
+			bi, ok := site.Common().Value.(*ssa.Builtin)
+			if !ok || bi.Name() != "copy" {
+				continue
+			}
+			if isFilters(site.Common().Args[0]) && isFilters(site.Common().Args[1]) {
+				n++
+				r.Bad(p.FuncName(fn), "bulk move of cache entries", p.Pos(site.Pos()), "entries are shifted inside Cache.filters with copy(): every shifted entry changes position, but the id → position map is not rebuilt for all of them")
+			}
+		}
+		// element moves: c.filters[i] = c.filters[j] must be followed by indices[…] = i and happen only where i != j is known
+		// when the function also deletes from the map
+		deletes := false
+		for _, site := range callsIn(fn) {
+			if bi, ok := site.Common().Value.(*ssa.Builtin); ok && bi.Name() == "delete" {
+				if _, f, _, ok := loadedField(site.Common().Args[0]); ok && f == "indices" {
+					deletes = true
+				}
+			}
+		}
+		for _, b := range fn.Blocks {
+			for _, ins := range b.Instrs {
+				mu, ok := ins.(*ssa.MapUpdate)
+				if !ok {
+					continue
+				}
+				if _, f, _, ok := loadedField(mu.Map); !ok || f != "indices" {
+					continue
+				}
+				if !deletes {
+					continue
+				}
+				n++
+				// the re-indexing after a swap-remove: only where the removed position differs from the last one
+				guarded := false
+				mf := &MustFlow{Fn: fn, EdgeGen: func(x *ssa.BasicBlock, k int) bool {
+					atom, holds, ok := edgeCond(x, k)
+					if !ok {
+						return false
+					}
+					bo, isB := atom.(*ssa.BinOp)
+					if !isB {
+						return false
+					}
+					return bo.Op == token.NEQ && holds || bo.Op == token.EQL && !holds
+				}}
+				mf.Run()
+				guarded = mf.Before(mu)
+				if guarded {
+					r.OK(p.FuncName(fn), "re-index after swap-remove", p.Pos(mu.Pos()), "the moved entry is re-indexed only where it is a different entry than the removed one")
+				} else {
+					r.Bad(p.FuncName(fn), "re-index after swap-remove", p.Pos(mu.Pos()), "the id → position map is written unconditionally after the removed id was deleted from it: when the removed entry is the last one it re-inserts the removed id (a stale handle then resolves to whatever is registered next)")
+				}
+			}
+		}
+	}
+	if n == 0 {
+		r.Anchor("Cache: re-indexing of moved entries")
+	}
+}
+
+// ---------- the lock mask validates before it changes ----------
+
+func lockMaskValidateFirst(p *Prog, r *Reporter) {
+	n := 0
+	for _, fn := range p.Funcs {
+		if typeName(recvType(fn)) != "lockMask" {
+			continue
+		}
+		for _, b := range fn.Blocks {
+			if _, _, isIf := ifCond(b); !isIf {
+				continue
+			}
+			for k, s := range b.Succs {
+				_ = k
+				if !p.panicOnly(s) {
+					continue
+				}
+				n++
+				// no write to lock state may precede the test
+				writes := func(i ssa.Instruction) bool {
+					if len(directWrites(i)) > 0 {
+						for _, w := range directWrites(i) {
+							if strings.HasPrefix(w.Path, "lockMask") || strings.HasPrefix(w.Path, "bitPool") {
+								return true
+							}
+						}
+					}
+					if c, ok := i.(ssa.CallInstruction); ok {
+						for _, pa := range p.SiteMod(c).Paths() {
+							if strings.HasPrefix(pa, "lockMask") || strings.HasPrefix(pa, "bitPool") || strings.HasPrefix(pa, "Mask") {
+								return true
+							}
+						}
+					}
+					return false
+				}
+				last := b.Instrs[len(b.Instrs)-1]
+				if reachableNoBackEdge(fn, writes, last) {
+					r.Bad(p.FuncName(fn), "validate before changing lock state", p.Pos(posOf(last)), "lock state (the lock mask or the bit pool) is written before the test whose failing edge panics: a refused unlock has already changed the pool")
+				} else {
+					r.OK(p.FuncName(fn), "validate before changing lock state", p.Pos(posOf(last)), "nothing is written before the test")
+				}
+			}
+		}
+	}
+	if n == 0 {
+		r.Anchor("a panicking test in a method of lockMask")
+	}
+}
+
+// ---------- the zero ID is not an absence marker ----------
+
+func zeroIDNotAbsence(p *Prog, r *Reporter) {
+	n := 0
+	for _, fn := range p.Funcs {
+		if !p.isArche(fn) {
+			continue
+		}
+		for _, b := range fn.Blocks {
+			for _, ins := range b.Instrs {
+				bo, ok := ins.(*ssa.BinOp)
+				if !ok || (bo.Op != token.EQL && bo.Op != token.NEQ) || typeName(bo.X.Type()) != "ID" {
+					continue
+				}
+				if _, isPtr := bo.X.Type().Underlying().(*types.Pointer); isPtr {
+					continue // pointer comparisons (presence tests) are exactly what should be used
+				}
+				for _, opnd := range []ssa.Value{bo.X, bo.Y} {
+					if maybeZeroDefault(opnd, map[ssa.Value]bool{}) {
+						n++
+						r.Bad(p.FuncName(fn), fmt.Sprintf("comparison of an ID that may be a zero default #%d", n), p.Pos(bo.Pos()), "one operand is an ID variable that holds the zero ID when the option is absent; component id 0 is a real id, so 'absent' and 'id 0' compare equal")
+						break
+					}
+				}
+			}
+		}
+	}
+	r.OK("(all packages)", "zero ID never stands for absence in a comparison", "-", fmt.Sprintf("%d comparisons of possibly-defaulted IDs", n))
+}
+
+func maybeZeroDefault(v ssa.Value, seen map[ssa.Value]bool) bool {
+	if seen[v] {
+		return false
+	}
+	seen[v] = true
+	switch x := v.(type) {
+	case *ssa.Phi:
+		for _, e := range x.Edges {
+			if c, ok := e.(*ssa.Const); ok && c.Value == nil {
+				return true
+			}
+			if maybeZeroDefault(e, seen) {
+				return true
+			}
+		}
+	case *ssa.UnOp:
+		// load of a local that is zero-initialised and conditionally assigned
+		if al, ok := x.X.(*ssa.Alloc); ok && x.Op == token.MUL {
+			stores := 0
+			for _, ref := range *al.Referrers() {
+				if st, ok := ref.(*ssa.Store); ok && st.Addr == ssa.Value(al) {
+					stores++
+					if !instrBefore(st, x) || st.Block() != al.Block() && !dominatesBlock(st.Block(), x.Block()) {
+						return true // a conditional assignment: the zero value may survive
+					}
+				}
+			}
+			_ = stores
+		}
+	}
+	return false
+}
+
+// ---------- component ids are not fabricated from positions ----------
+
+func idsNotFabricated(p *Prog, r *Reporter) {
+	n := 0
+	for _, fn := range p.Funcs {
+		root := fn
+		for root.Parent() != nil {
+			root = root.Parent()
+		}
+		if typeName(recvType(root)) != "archetype" {
+			continue
+		}
+		for _, site := range callsIn(fn) {
+			sc := site.Common().StaticCallee()
+			if sc == nil || typeName(recvType(sc)) != "archetype" {
+				continue
+			}
+			for i, a := range site.Common().Args {
+				if i >= len(sc.Params) || typeName(sc.Params[i].Type()) != "ID" || !inLoop(site.Block()) {
+					continue
+				}
+				n++
+				// the id must come from the node's id list (an element load), a parameter, or a value read from such
+				src := "?"
+				okc := false
+				v := a
+				if u, ok := v.(*ssa.UnOp); ok && u.Op == token.MUL {
+					if ia, ok := u.X.(*ssa.IndexAddr); ok {
+						src = apath(ia.X)
+						okc = strings.HasSuffix(src, ".Ids") || strings.Contains(src, "call(Components)")
+						if _, isP := ia.X.(*ssa.Parameter); isP {
+							okc = true
+						}
+					}
+					if al, ok := u.X.(*ssa.Alloc); ok {
+						// composite literal ID{id: …}
+						_ = al
+						src = "an ID built in place"
+					}
+				}
+				if _, ok := v.(*ssa.Parameter); ok {
+					okc = true
+				}
+				if ph, ok := v.(*ssa.Phi); ok {
+					_ = ph
+					okc = true
+				}
+				construct := fmt.Sprintf("column id passed to %s #%d", cname(sc), n)
+				if okc {
+					r.OK(p.FuncName(fn), construct, p.Pos(site.Pos()), "the id comes from "+src)
+				} else {
+					r.Bad(p.FuncName(fn), construct, p.Pos(site.Pos()), "inside a per-column loop the component id is "+src+" rather than an element of the table's id list: positions in the buffer list are not component ids")
+				}
+			}
+		}
+	}
+	if n == 0 {
+		r.Anchor("a per-column loop passing component ids")
+	}
+}
+
+// ---------- Reset cannot fail on state ----------
+
+func resetNoPreconditionPanics(p *Prog, r *Reporter) {
+	reset := p.Fn("ecs.(*World).Reset")
+	if reset == nil {
+		r.Anchor("ecs.(*World).Reset")
+		return
+	}
+	g := p.guardAnalysis()
+	seen := map[*ssa.Function]bool{reset: true}
+	work := []*ssa.Function{reset}
+	n := 0
+	for len(work) > 0 {
+		fn := work[len(work)-1]
+		work = work[:len(work)-1]
+		for _, site := range callsIn(fn) {
+			callees, _ := p.Callees(site)
+			for _, sc := range callees {
+				if !p.isArche(sc) || seen[sc] || sc.Blocks == nil {
+					continue
+				}
+				if g.lockTests[sc] || g.sum[sc] != nil && g.sum[sc].establishes && len(p.Mod(sc).W) == 0 {
+					continue // the lock test itself
+				}
+				seen[sc] = true
+				work = append(work, sc)
+			}
+		}
+	}
+	var fns []*ssa.Function
+	for fn := range seen {
+		fns = append(fns, fn)
+	}
+	sortFns(p, fns)
+	for _, fn := range fns {
+		for _, b := range fn.Blocks {
+			if len(b.Instrs) == 0 {
+				continue
+			}
+			pn, ok := b.Instrs[len(b.Instrs)-1].(*ssa.Panic)
+			if !ok || !reachable(b) {
+				continue
+			}
+			n++
+			// allowed: panics of the paged slice / pool primitives that guard indices (internal invariants), identified by
+			// being in a function whose receiver is a container type
+			rt := typeName(recvType(fn))
+			if strings.HasPrefix(rt, "pagedSlice") || strings.HasPrefix(rt, "pointers") || rt == "bitPool" || rt == "lockMask" {
+				r.OKt(p.FuncName(fn), fmt.Sprintf("panic reachable from Reset #%d", n), p.Pos(pn.Pos()), "container invariant, not a state precondition")
+				continue
+			}
+			r.Bad(p.FuncName(fn), fmt.Sprintf("panic reachable from Reset #%d", n), p.Pos(pn.Pos()), "World.Reset can reach this explicit panic after its lock test: a reset that depends on what happens to be present (e.g. removing every registered resource) fails half-way")
+		}
+	}
+	r.OK("ecs.(*World).Reset", "no state-dependent panic", p.FnPos(reset), fmt.Sprintf("%d functions reachable from Reset scanned", len(fns)))
+}
+
+func sortFns(p *Prog, fns []*ssa.Function) {
+	for i := 1; i < len(fns); i++ {
+		for j := i; j > 0 && p.FuncName(fns[j]) < p.FuncName(fns[j-1]); j-- {
+			fns[j], fns[j-1] = fns[j-1], fns[j]
+		}
+	}
+}
+
+// ---------- the layout count covers every registered id ----------
+
+func layoutCountFromCount(p *Prog, r *Reporter) {
+	n := 0
+	for _, fn := range p.Funcs {
+		for _, site := range callsIn(fn) {
+			sc := site.Common().StaticCallee()
+			if sc == nil || !strings.HasPrefix(cname(sc), "capacity") || len(site.Common().Args) != 2 {
+				continue
+			}
+			// only the call whose second argument is the layout chunk size
+			if c, ok := stripConvs(site.Common().Args[1]).(*ssa.Const); !ok || c.Value == nil {
+				continue
+			} else if lc, _ := p.Pkgs["ecs"].Types.Scope().Lookup("layoutChunkSize").(*types.Const); lc == nil || lc.Val().ExactString() != c.Value.ExactString() {
+				continue
+			}
+			n++
+			x := stripConvs(site.Common().Args[0])
+			okc := false
+			if c := callOf(x); c != nil && c.Common().StaticCallee() != nil && cname(c.Common().StaticCallee()) == "Count" {
+				okc = true
+			}
+			r.Check(okc, p.FuncName(fn), fmt.Sprintf("layout count #%d", n), p.Pos(site.Pos()), "the number of layout slots is rounded up from the registry's Count() itself (found "+exprString(site.Common().Args[0])+"): ids run from 0 to Count()-1, so Count() slots are needed")
+		}
+	}
+	if n == 0 {
+		r.Anchor("a capacity computation with layoutChunkSize")
+	}
+}
+
+// ---------- the JSON decode buffer can hold the fields ----------
+
+func decodeBufferWidth(p *Prog, r *Reporter) {
+	u := p.Fn("ecs.(*Entity).UnmarshalJSON")
+	if u == nil {
+		r.Anchor("ecs.(*Entity).UnmarshalJSON")
+		return
+	}
+	n := 0
+	for _, b := range u.Blocks {
+		for _, ins := range b.Instrs {
+			st, ok := ins.(*ssa.Store)
+			if !ok {
+				continue
+			}
+			fa, ok := st.Addr.(*ssa.FieldAddr)
+			if !ok || fa.X != ssa.Value(u.Params[0]) {
+				continue
+			}
+			n++
+			f := fieldName(fa.X.Type(), fa.Field)
+			src := stripConvs(st.Val)
+			bt, _ := src.Type().Underlying().(*types.Basic)
+			okc := bt != nil && bt.Info()&types.IsUnsigned != 0 && basicWidth(bt) >= 32
+			tn := "?"
+			if bt != nil {
+				tn = bt.Name()
+			}
+			r.Check(okc, p.FuncName(u), "decoded "+f+" is read from an unsigned 32-bit (or wider) element", p.Pos(st.Pos()), "the decode buffer's element type is "+tn+": ids and generations use the full uint32 range (the pool's reserved entry has generation MaxUint32)")
+		}
+	}
+	if n == 0 {
+		r.Anchor("field stores in Entity.UnmarshalJSON")
+	}
+}
+
+// ---------- Exchange: both branches pass the same lists ----------
+
+func exchangeListsAgree(p *Prog, r *Reporter) {
+	for _, fn := range p.Funcs {
+		if fn.Pkg == nil || fn.Pkg.Pkg.Name() != "generic" {
+			continue
+		}
+		tn := typeName(recvType(fn))
+		if tn != "Exchange" {
+			continue
+		}
+		type lists struct{ add, rem string }
+		var rel, plain []lists
+		var pos []string
+		norm := func(v ssa.Value) string {
+			if isNilConst(v) {
+				return "nil"
+			}
+			if sl, ok := v.(*ssa.Slice); ok {
+				v = sl.X
+			}
+			if _, f, _, ok := loadedField(v); ok {
+				return f
+			}
+			return apath(v)
+		}
+		for _, site := range callsIn(fn) {
+			sc := site.Common().StaticCallee()
+			if sc == nil || sc.Pkg == nil || sc.Pkg.Pkg.Name() != "ecs" {
+				continue
+			}
+			a := site.Common().Args
+			rt := typeName(recvType(sc))
+			switch {
+			case rt == "Relations" && strings.HasPrefix(cname(sc), "Exchange") && len(a) >= 4:
+				rel = append(rel, lists{norm(a[2]), norm(a[3])})
+				pos = append(pos, p.Pos(site.Pos()))
+			case (rt == "World" || rt == "Batch") && (cname(sc) == "Add" || cname(sc) == "AddQ") && len(a) >= 3:
+				plain = append(plain, lists{norm(a[2]), "nil"})
+			case (rt == "World" || rt == "Batch") && (cname(sc) == "Remove" || cname(sc) == "RemoveQ") && len(a) >= 3:
+				plain = append(plain, lists{"nil", norm(a[2])})
+			case (rt == "World" || rt == "Batch") && (cname(sc) == "Exchange" || cname(sc) == "ExchangeQ") && len(a) >= 4:
+				plain = append(plain, lists{norm(a[2]), norm(a[3])})
+			}
+		}
+		if len(rel) == 0 || len(plain) == 0 {
+			continue
+		}
+		okc := true
+		for _, x := range rel {
+			for _, y := range plain {
+				if x != y {
+					okc = false
+				}
+			}
+		}
+		r.Check(okc, p.FuncName(fn), "with and without target: same component lists", p.FnPos(fn), fmt.Sprintf("the call with a relation target passes %v, the call without passes %v", rel, plain))
+	}
+}
+
+// ---------- checked wrappers call checked methods ----------
+
+func checkedCallsChecked(p *Prog, r *Reporter) {
+	n := 0
+	for _, fn := range p.Funcs {
+		if fn.Pkg == nil || fn.Pkg.Pkg.Name() != "generic" || fn.Object() == nil || !fn.Object().Exported() {
+			continue
+		}
+		if strings.HasSuffix(cname(fn), "Unchecked") {
+			continue
+		}
+		for _, site := range callsIn(fn) {
+			sc := site.Common().StaticCallee()
+			if sc == nil || sc.Pkg == nil || sc.Pkg.Pkg.Name() != "ecs" || !strings.HasSuffix(cname(sc), "Unchecked") {
+				continue
+			}
+			// the wrapper may do the check itself: a dominating Alive test whose failing edge panics
+			alive := &MustFlow{Fn: fn, EdgeGen: func(b *ssa.BasicBlock, k int) bool {
+				atom, holds, ok := edgeCond(b, k)
+				if !ok || !holds {
+					return false
+				}
+				c := callOf(atom)
+				return c != nil && c.Common().StaticCallee() != nil && cname(c.Common().StaticCallee()) == "Alive" && p.panicOnly(b.Succs[1-k])
+			}}
+			// or the checked variant of the same ecs method was already called for the same entity (first component checked,
+			// the others fetched unchecked)
+			base := strings.TrimSuffix(cname(sc), "Unchecked")
+			ent := site.Common().Args[1]
+			alive.InstrGen = func(i ssa.Instruction) bool {
+				c2, ok := i.(ssa.CallInstruction)
+				if !ok || c2 == site {
+					return false
+				}
+				s2 := c2.Common().StaticCallee()
+				return s2 != nil && s2.Pkg != nil && s2.Pkg.Pkg.Name() == "ecs" && cname(s2) == base && len(c2.Common().Args) > 1 && c2.Common().Args[1] == ent
+			}
+			alive.Run()
+			if alive.Before(site) {
+				continue
+			}
+			n++
+			r.Bad(p.FuncName(fn), "checked wrapper calls "+cname(sc), p.Pos(site.Pos()), "the generic method is the checked variant (its ID-based equivalent panics for dead entities / missing components) but calls the unchecked ecs method")
+		}
+	}
+	r.OK("(generic)", "checked wrappers call checked methods", "-", fmt.Sprintf("%d violations among the exported generic methods not named *Unchecked", n))
+}
+
+// ---------- the resource table has MaskTotalBits slots ----------
+
+func resourceTableSize(p *Prog, r *Reporter) {
+	c := p.Fn("ecs.newResources")
+	if c == nil {
+		r.Anchor("ecs.newResources")
+		return
+	}
+	mtb, _ := p.Pkgs["ecs"].Types.Scope().Lookup("MaskTotalBits").(*types.Const)
+	n := 0
+	for _, b := range c.Blocks {
+		for _, ins := range b.Instrs {
+			var got string
+			var pos token.Pos
+			switch mk := ins.(type) {
+			case *ssa.MakeSlice:
+				if k, isC := mk.Len.(*ssa.Const); isC && k.Value != nil {
+					got = k.Value.ExactString()
+				} else {
+					got = exprString(mk.Len)
+				}
+				pos = mk.Pos()
+			case *ssa.Alloc:
+				// make([]T, N) with constant N: a heap array that is sliced
+				at, ok := deref(mk.Type()).Underlying().(*types.Array)
+				if !ok || !mk.Heap {
+					continue
+				}
+				got = fmt.Sprint(at.Len())
+				pos = mk.Pos()
+			default:
+				continue
+			}
+			n++
+			okc := mtb != nil && got == mtb.Val().ExactString()
+			r.Check(okc, p.FuncName(c), "resource table size", p.Pos(pos), "the table has MaskTotalBits slots, one per possible resource id (found "+got+")")
+		}
+	}
+	if n == 0 {
+		r.Anchor("the allocation of Resources.resources in newResources")
+	}
+}
